@@ -1,6 +1,6 @@
 //! C01: add / sub / neg / abs in every overflow mode.
 use refmodel::spec;
-use refmodel::ZNum;
+use refmodel::{Obs, ZNum};
 use vengine::{op, oph, Aux, Op};
 use vengine::{ov, v, vf};
 
@@ -16,13 +16,13 @@ macro_rules! tables {
                     op!("wrapping_add", 2, Aux::None, spec::wrapping_add, |r, _x| v(r[0].wrapping_add(r[1]))),
                     op!("saturating_add", 2, Aux::None, spec::saturating_add, |r, _x| v(r[0].saturating_add(r[1]))),
                     oph!("strict_add", 2, Aux::None, spec::strict_add, |r, _x| v(r[0].strict_add(r[1]))),
-                    op!("unchecked_add", 2, Aux::None, spec::unchecked_add, |r, _x| v(unsafe { r[0].unchecked_add(r[1]) })),
+                    op!("unchecked_add", 2, Aux::None, spec::unchecked_add, |r, _x| if r[0].checked_add(r[1]).is_some() { v(unsafe { r[0].unchecked_add(r[1]) }) } else { Obs::OV(None) }),
                     op!("overflowing_sub", 2, Aux::None, spec::overflowing_sub, |r, _x| vf(r[0].overflowing_sub(r[1]))),
                     op!("checked_sub", 2, Aux::None, spec::checked_sub, |r, _x| ov(r[0].checked_sub(r[1]))),
                     op!("wrapping_sub", 2, Aux::None, spec::wrapping_sub, |r, _x| v(r[0].wrapping_sub(r[1]))),
                     op!("saturating_sub", 2, Aux::None, spec::saturating_sub, |r, _x| v(r[0].saturating_sub(r[1]))),
                     oph!("strict_sub", 2, Aux::None, spec::strict_sub, |r, _x| v(r[0].strict_sub(r[1]))),
-                    op!("unchecked_sub", 2, Aux::None, spec::unchecked_sub, |r, _x| v(unsafe { r[0].unchecked_sub(r[1]) })),
+                    op!("unchecked_sub", 2, Aux::None, spec::unchecked_sub, |r, _x| if r[0].checked_sub(r[1]).is_some() { v(unsafe { r[0].unchecked_sub(r[1]) }) } else { Obs::OV(None) }),
                     op!("overflowing_add_signed", 2, Aux::None, spec::overflowing_add_signed, |r, _x| vf(r[0].overflowing_add_signed(r[1].cast_signed()))),
                     op!("checked_add_signed", 2, Aux::None, spec::checked_add_signed, |r, _x| ov(r[0].checked_add_signed(r[1].cast_signed()))),
                     op!("wrapping_add_signed", 2, Aux::None, spec::wrapping_add_signed, |r, _x| v(r[0].wrapping_add_signed(r[1].cast_signed()))),
@@ -45,13 +45,13 @@ macro_rules! tables {
                     op!("wrapping_add", 2, Aux::None, spec::wrapping_add, |r, _x| v(r[0].wrapping_add(r[1]))),
                     op!("saturating_add", 2, Aux::None, spec::saturating_add, |r, _x| v(r[0].saturating_add(r[1]))),
                     oph!("strict_add", 2, Aux::None, spec::strict_add, |r, _x| v(r[0].strict_add(r[1]))),
-                    op!("unchecked_add", 2, Aux::None, spec::unchecked_add, |r, _x| v(unsafe { r[0].unchecked_add(r[1]) })),
+                    op!("unchecked_add", 2, Aux::None, spec::unchecked_add, |r, _x| if r[0].checked_add(r[1]).is_some() { v(unsafe { r[0].unchecked_add(r[1]) }) } else { Obs::OV(None) }),
                     op!("overflowing_sub", 2, Aux::None, spec::overflowing_sub, |r, _x| vf(r[0].overflowing_sub(r[1]))),
                     op!("checked_sub", 2, Aux::None, spec::checked_sub, |r, _x| ov(r[0].checked_sub(r[1]))),
                     op!("wrapping_sub", 2, Aux::None, spec::wrapping_sub, |r, _x| v(r[0].wrapping_sub(r[1]))),
                     op!("saturating_sub", 2, Aux::None, spec::saturating_sub, |r, _x| v(r[0].saturating_sub(r[1]))),
                     oph!("strict_sub", 2, Aux::None, spec::strict_sub, |r, _x| v(r[0].strict_sub(r[1]))),
-                    op!("unchecked_sub", 2, Aux::None, spec::unchecked_sub, |r, _x| v(unsafe { r[0].unchecked_sub(r[1]) })),
+                    op!("unchecked_sub", 2, Aux::None, spec::unchecked_sub, |r, _x| if r[0].checked_sub(r[1]).is_some() { v(unsafe { r[0].unchecked_sub(r[1]) }) } else { Obs::OV(None) }),
                     op!("overflowing_add_unsigned", 2, Aux::None, spec::overflowing_add_unsigned, |r, _x| vf(r[0].overflowing_add_unsigned(r[1].cast_unsigned()))),
                     op!("checked_add_unsigned", 2, Aux::None, spec::checked_add_unsigned, |r, _x| ov(r[0].checked_add_unsigned(r[1].cast_unsigned()))),
                     op!("wrapping_add_unsigned", 2, Aux::None, spec::wrapping_add_unsigned, |r, _x| v(r[0].wrapping_add_unsigned(r[1].cast_unsigned()))),
